@@ -572,6 +572,14 @@ def run_lang(inp):
     if done and (A_geo_e != ev_geo or A_lex_e != ev_lex):
         bad["even"] = {"geo_diff": sorted(A_geo_e ^ ev_geo)[:3], "lex_diff": sorted(A_lex_e ^ ev_lex)[:3]}
     # the library's own enumeration agrees with the direct traversal (single-character names only)
+    # G13 entry points: the module-level function on the Coxeter matrix is the same language as the method
+    for lexflag, a in ((False, geo), (True, lex)):
+        tw = CA.generate_automaton_coxeter_matrix(np.array(M), lexflag)
+        if minimal_form(graph_of(tw), start_of(tw)) != minimal_form(graph_of(a, names), start_of(a)):
+            bad["module_level_twin"] = {"lex_reduced": lexflag}
+    # G14 boundaries: maxlen 0 and the empty word
+    if list(lex.enumerate_words(0)) != [""] or not lex.accepts([]) or not geo.accepts([]):
+        bad["empty_word"] = True
     # documented defaults: automaton() is the shortlex automaton, not the even-length variant
     dflt = G.automaton()
     if accepted(dflt, names, min(L, 5)) != {w for w in A_lex if len(w) <= min(L, 5)}:
@@ -656,7 +664,7 @@ def judge_lang(inp, obs, lr):
     if obs["bad"]:
         if lr:
             obs["bad"]["geodesic"]["certificate"]["lean_checkCert"] = lr[0]
-        pref = ["geodesic", "shortlex", "even", "growth", "injective", "length", "accepts", "enumerate_words", "enumerate_words_even", "defaults", "api_image"]
+        pref = ["geodesic", "shortlex", "even", "growth", "injective", "length", "accepts", "enumerate_words", "enumerate_words_even", "module_level_twin", "empty_word", "defaults", "api_image"]
         what = sorted(obs["bad"], key=lambda k: pref.index(k) if k in pref else 99)[0]
         return {"expected": {"geodesic": "accepted words = reduced words", "shortlex": "accepted = least reduced expression of each element",
                              "even": "even automaton = even-length accepted words", "growth": "counts = growth series",
